@@ -809,5 +809,6 @@ def run(ck: Checker) -> None:
     ck.guard("R-XP-SHARED", lambda: S.r_stateless(ck, "R-XP-SHARED", XP, "XPathTransformer", None, "one transformer instance serves every parse, also after a failed one"))
     from .c17 import r_reusable
     ck.guard("R-XP-ELEMENTS", lambda: r_reusable(ck))
+    ck.guard("R-XP-ANYWHERE", lambda: S.r_pruned_walk(ck, "R-XP-ANYWHERE", [(XP, "ASTXpath.findall")], "a '//' step has every descendant as a candidate"))
     ck.require_count("R-XP-SHARED", 3)
     ck.require_count("R-XP-ANYWHERE", 3)
